@@ -16,7 +16,7 @@ class C02(Prop):
     id = "C02"
     theorems = ["searchLeft_partition", "searchRight_partition", "slicePositions_nat",
                 "locateSlice_increasing_spec", "locateSlice_decreasing_spec", "locateSlice_strict_spec",
-                "locateSlice_strict_absent", "slice_never_wraps"]
+                "locateSlice_strict_absent", "slice_never_wraps", "locateSlice_sliceSel_monotonic", "locateSlice_sliceSel_strict", "locateSlice_sliceSel_strict_absent"]
     rule = ("exhaustive grid (also in the quick tier): monotonic int/float axes of length 0-5, both directions, bounds "
             "from {None, below, each label, between, above}, steps {None,1,2,3,-1,-2}; shuffled numeric and str axes "
             "with bounds from the labels; + seeded random N-d arrays with slices mixed with other index kinds and "
